@@ -69,6 +69,11 @@ def result_carriers(body, start_local):
                     p = rv["pl"]["p"]
                     if p == [] or p == ["*"]:
                         src = rv["pl"]["l"]
+                elif rv["rk"] == "agg" and rv.get("ak") == "adt" and rv.get("adt") == "std::task::Poll" and rv.get("ops"):
+                    # Poll::Ready(x): the return of an inlined async helper (cv.inline)
+                    op = rv["ops"][0]
+                    if op.get("k") in ("copy", "move") and not op["pl"]["p"]:
+                        src = op["pl"]["l"]
                 if src is not None and src in carriers and dst["l"] not in carriers:
                     carriers.add(dst["l"])
                     changed = True
@@ -386,6 +391,27 @@ def closure_creation(crate, closure_name):
     if cb is None or not cb.parent:
         return None
     pb = crate.bodies.get(cb.parent)
+    if pb is None:
+        # the parent was a private helper dissolved into its callers (cv.inline): the closure is
+        # now created by the inlined copy
+        cache = crate.__dict__.setdefault("_closure_creators", {})
+        if closure_name not in cache:
+            hit = None
+            for ob in crate.bodies.values():
+                for blk in ob.blocks:
+                    if blk["cleanup"] or "inl" not in blk:
+                        continue
+                    for s in blk["stmts"]:
+                        if s["sk"] == "assign" and s["rv"]["rk"] == "agg" and s["rv"].get("ak") == "closure" \
+                                and s["rv"]["closure"] == closure_name:
+                            hit = ob
+                            break
+                    if hit:
+                        break
+                if hit:
+                    break
+            cache[closure_name] = hit
+        pb = cache[closure_name]
     if pb is None:
         return None
     for bb, j, s in pb.all_assigns():
